@@ -156,7 +156,9 @@ impl<'de> Deserialize<'de> for AuthenticatorData {
                 AuthenticatorData::from_slice(v).map_err(|e| E::custom(e.to_string()))
             }
         }
-        deserializer.deserialize_bytes(Visitor)
+        // a byte string of any length: `deserialize_bytes` borrows from the format's scratch buffer, which
+        // ciborium only does up to 4096 bytes (`visit_byte_buf` forwards to `visit_bytes`)
+        deserializer.deserialize_byte_buf(Visitor)
     }
 }
 
